@@ -123,3 +123,13 @@ Theorem C07_dt_formula currDT bounds psd g d maxRatio :
       (exists k, relevant psd d k /\ Rabs (nthR g k) = m) ).
 Proof. exact (getDT_spec currDT bounds psd g d maxRatio). Qed.
 Print Assumptions C07_dt_formula.
+
+(* The executable (exact-rational) instance used by the correspondence check computes the value of
+   the real-number model on rational inputs (class widths non-zero): *)
+From Coq Require Import QArith Qreals.
+Require Import Kawin.C07.Hom.
+Theorem C07_exec_is_real_model b p g nr rn :
+  Forall (fun z => ~ (z == 0)%Q) (diffs Qops b) ->
+  map Q2R (getdXdt Qops b p g nr rn) = getdXdt Rops (map Q2R b) (map Q2R p) (map Q2R g) (Q2R nr) (Q2R rn).
+Proof. exact (getdXdt_hom b p g nr rn). Qed.
+Print Assumptions C07_exec_is_real_model.
